@@ -376,6 +376,8 @@ class VerifyTask:
             self.config.ground_first = True
         if getattr(c, "rounding_hints", False):
             self.config.rounding_hints = True
+        if getattr(c, "cover_timeout_ms", None):
+            self.config.cover_timeout_ms = c.cover_timeout_ms
         self.ref = fn_override or SRC.resolve(c.target)
         self.used_contracts: set = set()
         self.inlined: set = set()
